@@ -1,18 +1,21 @@
 """Source of MANIFEST.json (tools/mkmanifest.py).  One entry per claimed property."""
 
-ENGINES = [
-    {"name": "pyvc", "path": "vf/pyvc.py", "serves_properties": ["C10"],
-     "kind_free_text": "verification-condition generator for discrete pure Python: re-parses the repository file with ast on "
-                       "every run, path-wise symbolic execution over unbounded z3 integers, contracts in sidecar files; "
-                       "cross-checked against CPython on the complete finite domain"},
-    {"name": "symnp", "path": "vf/symnp.py", "serves_properties": ["C01"],
-     "kind_free_text": "the real repository functions executed by CPython on shape-polymorphic symbolic arrays (module global "
-                       "`numpy` rebound to a contract stub in the checker process); sums over symbolic dimensions by "
-                       "linearity/congruence rules; rational identities by case split + cleared denominators (vf/ratid.py); "
-                       "stub validated against real numpy on object arrays every run"},
-    {"name": "smt", "path": "vf/smt.py", "serves_properties": ["C01", "C10"],
-     "kind_free_text": "z3 5.1 python API primary, cvc5 1.4 on the same SMT-LIB text for unknowns and in the thorough tier"},
-]
+ENGINE_TEXT = {
+    "pyvc": ("vf/pyvc.py", "verification-condition generator for discrete pure Python: re-parses the repository file with ast on "
+             "every run, path-wise symbolic execution over unbounded z3 integers (vf/pydict.py: dictionaries with a loop rule), "
+             "contracts in sidecar files; cross-checked against CPython on the complete finite domain"),
+    "symnp": ("vf/symnp.py", "the real repository functions executed by CPython on shape-polymorphic symbolic arrays (module global "
+              "`numpy` rebound to a contract stub in the checker process); sums over symbolic dimensions by "
+              "linearity/congruence rules; rational identities by case split + cleared denominators (vf/ratid.py); "
+              "stub validated against real numpy on object arrays every run"),
+    "extreal": ("vf/extreal.py", "IEEE-style extended reals (finite / +-inf / nan cases) for the exp-overflow obligations, on top of symnp"),
+    "frames": ("vf/frames.py", "AST effect analysis: every write of every function of the package against its frame (modifies) contract"),
+    "regauto": ("vf/regauto.py", "regex lemmas over all strings: CPython's own parse of the pattern -> ordered tagged automata; inclusion "
+                "against the language of the writer's line templates by subset construction over a partition of all Unicode code points"),
+    "rtc": ("props/", "run-time contracts on the real functions (bounded stand-in only, never counted as discharged)"),
+    "smt": ("vf/smt.py", "z3 5.1 python API primary, cvc5 1.4 on the same SMT-LIB text for unknowns and in the thorough tier"),
+    "lean": ("vf/lean.py", "Lean 4.33 + Mathlib: lemmas/FiniteSums.lean (sum rules the normaliser uses), lemmas/Hill.lean (Reuss <= Hill <= Voigt)"),
+}
 
 NOTES = ("Contract-based deductive verification of the real code; see DESIGN.md. Exit codes of ./check: 0 held, 1 violation "
          "(VIOLATION line), 2 undecided, 3 checker error. Bounded stand-ins are labelled `bounded` in evidence and never "
